@@ -6,6 +6,7 @@ import MitmVerif.Gen.C38
 import MitmVerif.Lemmas.C38_Conv
 import MitmVerif.Lemmas.C38_Host
 import MitmVerif.Lemmas.C38_HostValid
+import MitmVerif.Lemmas.C38_Succ
 import MitmVerif.Lemmas.C38_Old
 import MitmVerif.Lemmas.C38_State
 import MitmVerif.Model.C38_Tuple
@@ -1211,6 +1212,51 @@ example : Shape12 [(.str (s "version"), .int 12), (.str (s "marked"), .bool true
   refine ⟨⟨.bool true, ?_⟩, Or.inl ?_, ?_, ⟨[(.str (s "path"), .bytes (s "/x")), (.str (s "timestamp_start"), .int 5)], .int 5, ?_, ?_⟩,
     ⟨[(.str (s "timestamp_start"), .int 5)], ?_⟩⟩ <;>
   repeat (first | rw [dget_cons_same] | rw [dget_cons_ne _ _ _ _ (by decide +kernel)])
+
+
+/-- what formats 10 … 18 stored in the two connection records, as far as 18→19 looks: `tls_extensions` (client) and
+    `tls_established` (both) present; every address-like field absent, None, or a pair / text; the server's `sni` a name, None,
+    or `True` with the address None or a pair -/
+structure Shape18 (d : Dict) : Prop where
+  conns : ∃ cc sc, dget d (s "client_conn") = some (.dict cc) ∧ dget d (s "server_conn") = some (.dict sc) ∧
+    (∃ tx, dget cc (s "tls_extensions") = some tx) ∧ (∃ te, dget cc (s "tls_established") = some te) ∧
+    hostOkB (dget cc (s "address")) = true ∧ hostOkB (dget cc (s "sockname")) = true ∧
+    (∃ te, dget sc (s "tls_established") = some te) ∧
+    hostOkB (dget sc (s "ip_address")) = true ∧ hostOkB (dget sc (s "source_address")) = true ∧
+    hostOkB (dget sc (s "address")) = true ∧
+    ∃ sni, dget sc (s "sni") = some sni ∧
+      (sni = .bool true → (dget sc (s "address") = some .null ∨ ∃ hh t, dget sc (s "address") = some (.list (hh :: t))))
+
+/-- **format_18_records_convert.** On a record of that shape 18→19 does not raise — whatever bytes the host names hold (the
+    decode never fails: undecodable bytes are escaped), with or without a destination (fix 9d000c6e4). With
+    `format_12_records_convert` and `format_19_20_records_convert`: every modelled step from 12 to 21 has a success theorem. -/
+theorem format_18_records_convert (d : Dict) (h : Shape18 d) :
+    ∃ d', conv_18_19 d = some d' ∧ dget d' (s "version") = some (.int 19) := by
+  obtain ⟨cc, sc, hcc, hsc, ⟨tx, h0⟩, ⟨te, h1⟩, h2, h3, ⟨te', g1⟩, g2, g3, g4, sni, g5, g6⟩ := h.conns
+  obtain ⟨cc', hcc'⟩ := client18_succeeds cc tx te h0 h1 h2 h3
+  obtain ⟨sc', hsc'⟩ := server18_succeeds sc te' sni g1 g2 g3 g4 g5 g6
+  have e1 : dget (setVersion d 19) (s "client_conn") = some (.dict cc) := by
+    rw [← hcc]; exact dget_dset_ne _ _ _ _ (by decide +kernel)
+  have e2 : dget (setVersion d 19) (s "server_conn") = some (.dict sc) := by
+    rw [← hsc]; exact dget_dset_ne _ _ _ _ (by decide +kernel)
+  have hconv : conv_18_19 d = some (dset (dset (setVersion d 19) (s "client_conn") (.dict cc')) (s "server_conn") (.dict sc')) := by
+    unfold conv_18_19
+    simp [e1, e2, asDict, hcc', hsc']
+  exact ⟨_, hconv, conv_writes_next_version 18 _ d _ rfl hconv⟩
+
+-- non-vacuity: the two format-18 example records above (bytes hosts + sni=True; no destination at all) have that shape
+example : Shape18 [(.str (s "version"), .int 18),
+    (.str (s "client_conn"), .dict [(.str (s "address"), .null), (.str (s "tls_extensions"), .null), (.str (s "tls_established"), .bool false)]),
+    (.str (s "server_conn"), .dict [(.str (s "address"), .null), (.str (s "sni"), .bool true), (.str (s "tls_established"), .bool false)])] := by
+  refine ⟨_, _, by repeat (first | rw [dget_cons_same] | rw [dget_cons_ne _ _ _ _ (by decide +kernel)]),
+    by repeat (first | rw [dget_cons_same] | rw [dget_cons_ne _ _ _ _ (by decide +kernel)]),
+    ⟨.null, by repeat (first | rw [dget_cons_same] | rw [dget_cons_ne _ _ _ _ (by decide +kernel)])⟩,
+    ⟨.bool false, by repeat (first | rw [dget_cons_same] | rw [dget_cons_ne _ _ _ _ (by decide +kernel)])⟩,
+    by decide +kernel, by decide +kernel,
+    ⟨.bool false, by repeat (first | rw [dget_cons_same] | rw [dget_cons_ne _ _ _ _ (by decide +kernel)])⟩,
+    by decide +kernel, by decide +kernel, by decide +kernel,
+    .bool true, by repeat (first | rw [dget_cons_same] | rw [dget_cons_ne _ _ _ _ (by decide +kernel)]),
+    fun _ => Or.inl (by repeat (first | rw [dget_cons_same] | rw [dget_cons_ne _ _ _ _ (by decide +kernel)]))⟩
 
 /-! #### the whole modelled chain 12 → 21 -/
 
